@@ -46,6 +46,27 @@ func VerifC14Reuse() {
 		}
 		vstub.Cover("opened-with-the-same-options")
 	}
+	// the SAME options value is then used to OPEN a database of another type with
+	// another write list (created with fresh values): the opened store has the type
+	// and the write list recorded in ITS manifest, not what the value carried over
+	otherTyp := storeTypes[(vstub.NdChoice("other-type", len(storeTypes)-1)+1+typeIndex(typ))%len(storeTypes)]
+	w3 := []string{"id-w3"}
+	third, err := p1.Create(ctx, "third", otherTyp, &CreateDBOptions{AccessController: acParams(w3), IO: e1.IO, Replicate: &no})
+	if err != nil {
+		vstub.Fail("C14 Create of the third database failed")
+		return
+	}
+	thirdAddr := third.Address().String()
+	_ = third.Close()
+	reopened, err := p1.Open(ctx, thirdAddr, opts)
+	vstub.Assert(err == nil, "C14 an address opens with a reused options value")
+	if err == nil {
+		vstub.Assert(reopened.Type() == otherTyp, "C14 opening an address with a reused options value yields a store of the RECORDED type")
+		gotW, gerr := reopened.AccessController().GetAuthorizedByRole("write")
+		vstub.Assert(gerr == nil && len(gotW) == 1 && gotW[0] == "id-w3", "C14 opening an address with a reused options value yields the write list given at ITS creation")
+		_ = reopened.Close()
+		vstub.Cover("opened-another-type-with-reused-options")
+	}
 	// the caller now describes another database with the same values
 	params.SetAccess("write", append([]string{}, w2...))
 	reuseOpts := vstub.NdChoice("reuse-options-value", 2) == 1
@@ -78,4 +99,13 @@ func VerifC14Reuse() {
 			vstub.Assert(got[k] == w2[k], "C14 the store's write list is the one given at ITS creation")
 		}
 	}
+}
+
+func typeIndex(t string) int {
+	for k, x := range storeTypes {
+		if x == t {
+			return k
+		}
+	}
+	return 0
 }
